@@ -76,7 +76,8 @@ def write_bam(path, contigs, reads):
             a.mapping_quality = r["mapq"]
             a.cigartuples = [(ops[o], n) for o, n in r["cigar"]]
             qlen = sum(n for o, n in r["cigar"] if o in "MIS")
-            a.query_sequence = "A" * qlen
+            # read letters are irrelevant to depth: every aligned base counts, also an N call or a lower-quality letter
+            a.query_sequence = "".join("ACGTN"[(7 * i + 3 * j + (j * j) % 5) % 5] for j in range(qlen)) if i % 3 == 0 else "A" * qlen
             a.query_qualities = pysam.qualitystring_to_array("I" * qlen)
             a.next_reference_id = -1
             a.next_reference_start = -1
